@@ -19,10 +19,14 @@ if [ "$PATCH" != "-" ]; then
   (cd / && diff -ru --exclude target --exclude .git repo/crates tmp/mut/repo/crates | sed 's|^--- repo/|--- a/|; s|^+++ tmp/mut/repo/|+++ b/|' > $M/out/applied.diff)
 fi
 export CARGO_NET_OFFLINE=true CARGO_TARGET_DIR=$M/target
-(cd $M/tv && cargo build --offline --bin tv 2>&1 | tail -n 30 > $M/out/build.log) 
+(cd $M/tv && cargo build --offline --bin tv 2>&1 | tail -n 30 > $M/out/build.log)
+if grep -q "^error" $M/out/build.log; then
+  # stale artifacts of another workspace in the shared target directory: clean the path crates and retry once
+  (cd $M/tv && cargo clean --offline -p tv -p trust-runtime -p trust-wasm-analysis -p trust-ide -p trust-hir -p trust-syntax >/dev/null 2>&1; cargo build --offline --bin tv 2>&1 | tail -n 30 > $M/out/build.log)
+fi
 if [ ! -x $M/target/debug/tv ] || grep -q "^error" $M/out/build.log; then cat $M/out/build.log; echo "BUILD FAILED"; exit 2; fi
 case "$PROP" in C14|C15)
-  (cd $M/repo && cargo build --offline -p trust-lsp --bin trust-lsp 2>&1 | tail -n 5) ; export TV_LSP_BIN=$M/target/debug/trust-lsp ;;
+  (cd $M/repo && CARGO_TARGET_DIR=$M/target-lsp cargo build --offline -p trust-lsp --bin trust-lsp 2>&1 | tail -n 5) ; export TV_LSP_BIN=$M/target-lsp/debug/trust-lsp ;;
 esac
 mkdir -p $M/target/shim
 [ -f $M/tv/envshim/shim.c ] && gcc -O1 -shared -fPIC -o $M/target/shim/libtvshim.so $M/tv/envshim/shim.c -ldl && export TV_SHIM=$M/target/shim/libtvshim.so
